@@ -35,7 +35,8 @@ T0 = pd.Timestamp('2021-03-01 21:00:00', tz='UTC')
 def run_universe(case):
     q = load()
     assets = case['assets']
-    FAR = {'y2300': pd.Timestamp('2300-01-01', tz='UTC'), 'y9999': pd.Timestamp('9999-12-31', tz='UTC')}
+    FAR = {'y2300': pd.Timestamp('2300-01-01', tz='UTC'), 'y9999': pd.Timestamp('9999-12-31', tz='UTC'),
+           'y1968': pd.Timestamp('1968-01-15 21:00', tz='UTC'), 'y1700': pd.Timestamp('1700-06-01', tz='UTC')}
     entries = [None if e is None else (FAR[e] if isinstance(e, str) else T0 + pd.Timedelta(minutes=e)) for e in case['entries']]
     zones = case.get('zones') or []
     for i, z in enumerate(zones):
@@ -85,7 +86,7 @@ def universes(draw):
         base = draw(st.sampled_from([e for e in entries if e is not None and not isinstance(e, str)] or [0]))
         qs.append(base * 60 + draw(st.sampled_from([0, 0, 60, -60, 1, -1, 86400 * 400, -86400 * 400])))
     if draw(st.sampled_from([False, False, True])):
-        qs.append(draw(st.sampled_from(['y2300', 'y2300', 'y9999'])))      # ... and a look centuries ahead
+        qs.append(draw(st.sampled_from(['y2300', 'y2300', 'y9999', 'y1968', 'y1968', 'y1700'])))      # ... centuries ahead, or back
     zones = [draw(st.sampled_from([None, None, None, 'America/New_York', 'Asia/Tokyo', 'Europe/London'])) for _ in assets]
     return {'assets': assets, 'entries': entries, 'queries': qs, 'zones': zones}
 
@@ -156,6 +157,18 @@ def run_sess(case):
     with market.csv_dir(mk) as path:
         r = session.run_session(cfg, path, list(mk))
         res = _verify_session(case, r, 'first run')
+        if 'session_lists_symbols_later_than_the_alpha_model' in case.get('labels', []):
+            # the same backtest with the session trading every symbol from the start: the alpha model's assets get the
+            # same weights at the same rebalances, so the fills are the same, fill for fill
+            cfg2 = dict(cfg, universe={'kind': 'static', 'assets': sorted(cfg['alpha_universe']['dates'])})
+            r_all = session.run_session(cfg2, path, list(mk))
+            fa = [(f[0], f[1], f[2]) for f in r.fills]
+            fb = [(f[0], f[1], f[2]) for f in r_all.fills]
+            if fa != fb and not (r.error or r_all.error):
+                k = next((i for i, (x, y) in enumerate(zip(fa, fb)) if x != y), min(len(fa), len(fb)))
+                raise Violation('with the session listing symbols later than the alpha model weights them the fills are %s...; '
+                                'with the session listing every symbol from the start they are %s... (fill %d; %d / %d fills)' % (
+                                    fa[k:k + 2], fb[k:k + 2], k, len(fa), len(fb)))
         if case.get('rerun_shared'):
             # the same backtest again in this process, re-using the universe and alpha-model objects
             r2 = session.run_session(cfg, path, list(mk), shared={'universe': r.universe, 'alpha_inner': r.alpha_inner})
